@@ -64,5 +64,14 @@ m("tb6b-sync-uses-unmapped-region",["C20"],"fio/mmap.go",
   "\tif m.activeMap == nil {\n\t\treturn m.file.Sync()\n\t}\n\treturn m.activeMap.Flush()\n",
   "\treturn m.activeMap.Flush()\n",
   "TB6b","","Sync after a size reset flushes a nil mapping")
+
+m("hp2-seek-drops-exhausted-cursors",["C10","C14"],"index/sharded_index.go",
+  "\t\tif item.valid() {\n\t\t\tit.heap.items = append(it.heap.items, item)\n\t\t} else {\n\t\t\tit.oldItems = append(it.oldItems, item)\n\t\t}\n\t}\n\n\t// 重新构建堆",
+  "\t\tif item.valid() {\n\t\t\tit.heap.items = append(it.heap.items, item)\n\t\t}\n\t}\n\n\t// 重新构建堆",
+  "HP2","cursor-conserved:(*index.IndexIterator).Seek","Seek forgets the cursors it exhausts (seeded C10-E)")
+m("hp2-next-drops-exhausted-cursor",["C10","C14"],"index/sharded_index.go",
+  "\tif item.valid() {\n\t\theap.Push(it.heap, item)\n\t} else {\n\t\tit.oldItems = append(it.oldItems, item)\n\t}\n",
+  "\tif item.valid() {\n\t\theap.Push(it.heap, item)\n\t}\n",
+  "HP2","cursor-conserved:(*index.IndexIterator).Next","Next forgets the cursor it exhausts: Rewind no longer visits that shard")
 json.dump(M,open('/verif/mutants/c_round3.json','w'),indent=1,ensure_ascii=False)
 print(len(M))
